@@ -54,7 +54,7 @@ class Check:
     }
 
     def runs(self, tier):
-        return 1400 if tier == 'quick' else 40000
+        return 4000 if tier == 'quick' else 60000
 
     def wall_cap(self, tier):
         return 600 if tier == 'quick' else 6600
@@ -100,9 +100,20 @@ class Check:
         pristine = {'gyr': hist.gyr.copy(), 'acc': {k: v.copy() for k, v in hist.acc.items()},
                     'mag': {k: v.copy() for k, v in hist.mag.items()}}
 
+        own_cfg = {}
+
         def own_params(task):
+            """The application's configuration for this task: the *same* caller-owned arrays (P, b0, weights, q0)
+            are handed to every object built from it -- batch, repeated batch, solo stream and (unless the task
+            shares its arrays with another instance) the interleaved stream -- as a user would do."""
+            if task.idx not in own_cfg:
+                if task.spec.get('share') is None:
+                    own_cfg[task.idx] = task.cfg
+                else:
+                    own_cfg[task.idx] = C.make_config(task.spec.get('params', {}))
             p = dict(task.spec.get('params', {}))
-            return p          # fresh parameter arrays are created from the JSON lists
+            p.update(own_cfg[task.idx])
+            return p
 
         # 1. reference: batch constructor, solo, private copies, per-task RNG seed
         refs, q_inits = [], []
@@ -124,7 +135,7 @@ class Check:
                 # the batch constructor raised: its Q[0] is only known when the configuration fixes it (q0=...)
                 q0p = t.spec.get('params', {}).get('q0')
                 if q0p is not None and t.kind.q0_route == 'q0':
-                    q_inits.append(np.array(q0p, dtype=float) / np.linalg.norm(q0p))
+                    q_inits.append(np.array(q0p, dtype=float) / np.linalg.norm(np.array(q0p, dtype=float)))
                 else:
                     tq = hist.truth[0]
                     q_inits.append(np.array([tq[0], -tq[1], -tq[2], -tq[3]]) if t.kind.conj else tq.copy())
@@ -258,7 +269,7 @@ class Check:
             a = acc[k] if 'a' in t.kind.sensors else None
             m = mag[k] if 'm' in t.kind.sensors else None
             try:
-                r = K.out_to_array(t.kind.step(inst, p, q, g, a, m, p.get('dt_call', False)))
+                r = K.out_to_array(t.kind.step(inst, p, q, g, a, m, C.call_dt(p, hist.dt)))
                 out[k] = r
                 if r is not None and t.kind.recursive:
                     q = r
